@@ -85,9 +85,10 @@ ArgumentKey::ArgumentKey( const string& arg_spec) noexcept( false):
 
    if (comma_pos == string::npos)
    {
-      const int  ignore_leading_dashes =
-         static_cast< int>( arg_spec[ 0] == StartChar)
-         + static_cast< int>( arg_spec[ 1] == StartChar);
+      // a dash in the second position is only a leading dash if the first
+      // character is a dash too
+      const int  ignore_leading_dashes = (arg_spec[ 0] != StartChar) ? 0 :
+         1 + static_cast< int>( arg_spec[ 1] == StartChar);
 
       if (arg_spec[ ignore_leading_dashes] == StartChar)
          throw invalid_argument( "too many leading dashes in argument specification");
